@@ -939,7 +939,12 @@ def iter_model(it, fn, name, args, dest_ty, term, caller, depth):
                         if b_["path"].endswith("::next") and b_.get("impl_trait", "").endswith("Iterator") and b_.get("impl_self", "").split("<")[0] == other.name:
                             nb2 = b_
                             break
-                    if nb2 is None or it.mono:
+                    if it.mono:
+                        nb2 = None
+                        for tg_ in reversed(fn.get("targs") or []):
+                            for tr_ in ("std::iter::Iterator", "core::iter::Iterator"):
+                                nb2 = nb2 or it.facts.insts.get("<%s as %s>::next" % (tg_, tr_))
+                    if nb2 is None:
                         return NotImplemented
                     other = IterV("user", (Cell(other, "user-iter"), nb2))
                 if not isinstance(other, (IterV, Adt)):
@@ -982,19 +987,6 @@ def iter_model(it, fn, name, args, dest_ty, term, caller, depth):
                 # an opaque set that remembers what went in (harnesses answer membership; concrete integer sets are answered by models2)
                 return Opaque(dty, {"collected-set"}, {"items": out})
             return DequeV(out) if is_deque else VecV(out)
-        if name == "unzip" and len(args) == 1 and isinstance(args[0], IterV) and (dest_ty or "").startswith("(std::vec::Vec<"):
-            cur = args[0]
-            xs, ys = [], []
-            for _ in range(100000):
-                cur, item = iter_next(it, cur, term, caller, depth)
-                if item.variant == 0:
-                    break
-                pr = item.fields[0]
-                if not (isinstance(pr, Tup) and len(pr.fields) == 2):
-                    raise Unsupported("unzip over %r" % (pr,))
-                xs.append(pr.fields[0])
-                ys.append(pr.fields[1])
-            return Tup([VecV(xs), VecV(ys)])
         if name in ("fold",) and len(args) == 3 and (isinstance(args[0], IterV) or (isinstance(args[0], Adt) and args[0].name.endswith("ops::Range"))):
             cur = args[0]
             acc = args[1]
